@@ -14,7 +14,7 @@
    wfb = the input format the generators and parsers produce; solvableb = every real operation has at least
    one machine with positive processing time; jssp_wfb = exactly one such machine (JSSP). *)
 From Coq Require Import ZArith List Bool Arith.
-From RL4CO Require Import Spec.Schedule Env.FJSP Env.FJSPProofs.
+From RL4CO Require Import Spec.Schedule Env.FJSP Env.FJSPProofs Env.SchedStepwise.
 Import ListNotations.
 
 (* For every instance, both values of mask_no_ops and every mask-confined action list: the episode never
@@ -119,6 +119,24 @@ Theorem C07_fjsp_bound_unfinished_prefixes :
     length acts <= (if cfg then total_ops i else total_ops i + total_ops i).
 Proof. exact FJSP_bound_prefix. Qed.
 Print Assumptions C07_fjsp_bound_unfinished_prefixes.
+
+(* FJSPEnv(stepwise_reward=True): the reward is handed out step by step as minus the change of the largest lower bound on an
+   operation's finish time (a potential LB of the state; the real one, calc_lower_bound, is not modelled -- ANY potential
+   will do).  The schedule is the same valid schedule, and "the reported makespan" in this mode is  LB(reset) - sum of the
+   step rewards : it equals LB of the final state, hence the makespan whenever LB(final) is the makespan (calc_lower_bound's
+   own assert; checked by the correspondence on every run). *)
+Theorem C07_fjsp_stepwise_reported_makespan :
+  forall (LB : st -> Z) (cfg : bool) (i : inst) (acts : list nat),
+    wfb i = true -> solvableb i = true -> admb cfg i (reset i) acts = true ->
+    exists (tr : list st) (s : st),
+      trace cfg i (reset i) acts = Some tr /\ length tr = length acts /\ last tr (reset i) = s /\
+      run cfg i (reset i) acts = Some s /\
+      (LB (reset i) - zsum (sw_rewards st LB (reset i) tr))%Z = LB s /\
+      (done s = true ->
+       exists mk : Z, reward i s = Some (- mk)%Z /\ valid_schedule (sinst_of i) (schedule_of s) mk /\
+         (LB s = mk -> (LB (reset i) - zsum (sw_rewards st LB (reset i) tr))%Z = mk)).
+Proof. exact fjsp_stepwise_telescopes. Qed.
+Print Assumptions C07_fjsp_stepwise_reported_makespan.
 
 (* JSSPEnv (own mask over jobs, own action translation job -> its one eligible machine). *)
 Theorem C07_jssp_valid :
